@@ -41,6 +41,8 @@ def show_rxn(r, param_as_text=None):
         p = param_as_text
     elif r.param is None:
         p = '-'
+    elif type(r.param).__name__ == 'MassAction' and len(r.param.args) == 1 and hasattr(r.param.args[0], 'unique_keys'):
+        p = 'sym"%s"' % esc(r.param.args[0].unique_keys[0])      # the quoted 'k' form: a Symbol rate constant
     else:
         p = '=' + repr(r.param)
     return '%s %s %s %s %s' % (show_dict(r.reac), show_dict(r.prod), show_dict(r.inact_reac), show_dict(r.inact_prod), p)
@@ -60,6 +62,12 @@ def err_tag(e):
         return 'ValueError:badNumber'
     if m.startswith('The net stoichiometry') or m.startswith('Found a negative') or m.startswith('Found a non-integer'):
         return 'ValueError:check'
+    if m.startswith('Cannot specify both'):
+        return 'ValueError:both'
+    if m.startswith('Unknown setting'):
+        return 'ValueError:unknownSetting'
+    if m.startswith("Don't know how to print"):
+        return 'ValueError:cannotPrint'
     if m.startswith('empty separator'):
         return 'ValueError:emptySeparator'
     return 'ValueError:?' + m[:40]
@@ -195,6 +203,11 @@ class C12(Property):
         'system round trip: theorem covers unnamed systems of reactions with sorted int dictionaries; ReactionSystem-level checks (balance, substance_keys, duplicates), '
         'substance construction (substance_factory) and ReactionSystem.__eq__ on substances are oracle-only',
         'the sorted key order of the parsed dictionaries is stated only through the round-trip theorems; for arbitrary written lines it is checked by the oracle',
+        'constructor arguments checks / dont_check, the check_* predicates with throw=False, Reaction.__eq__ on unequal / foreign / identical operands, unknown printer settings and '
+        'fallback_print_fn=None: modelled (initChecks, anyEffect/allPositive/allIntegral, Reaction.eq, printReactionWith) and compared case by case with the real code and an independent '
+        'oracle, but stated as theorems only where they touch the property (parsed_passes_default_checks, copy_eq); the set order in which several failing checks raise is not modelled',
+        'the quoted parameter form: theorem quoted_param_is_symbol is about the text classification; that the real object is MassAction(Symbol(unique_keys=(k,))) and prints back as \'k\' is oracle-only',
+        'unit-carrying parameters: printed as "<%.3g of the magnitude> <dimensionality>" is an oracle-only claim (not modelled; such text does not re-parse)',
     )
     _base_assumptions = ('eval of the parameter text and of "; key=value" parts is not modelled (the model keeps the text; compared numerically through float())',
                    'coefficient tokens: ASCII only, decimal floats with <= 15 mantissa digits and magnitude in [1e-300, 1e300); outside this the model answers Unmodelled; '
@@ -219,8 +232,12 @@ class C12(Property):
                ('chempy/chemistry.py', 'Reaction.check_any_effect'), ('chempy/chemistry.py', 'Reaction.check_all_positive'),
                ('chempy/chemistry.py', 'Reaction.check_all_integral'), ('chempy/chemistry.py', 'Reaction.net_stoich'),
                ('chempy/chemistry.py', 'Reaction.keys'),
-               ('chempy/reactionsystem.py', 'ReactionSystem.from_string'), ('chempy/equilibria.py', 'EqSystem'),
-               ('chempy/printing/string.py', 'StrPrinter'), ('chempy/printing/printer.py', 'Printer'))
+               ('chempy/reactionsystem.py', 'ReactionSystem.from_string'),
+               ('chempy/printing/string.py', 'StrPrinter._Reaction_parts'), ('chempy/printing/string.py', 'StrPrinter._Reaction_str'),
+               ('chempy/printing/string.py', 'StrPrinter._Reaction_param_str'), ('chempy/printing/string.py', 'StrPrinter._print_Reaction'),
+               ('chempy/printing/string.py', 'StrPrinter._print_ReactionSystem'),
+               ('chempy/printing/printer.py', 'Printer.__init__'), ('chempy/printing/printer.py', 'Printer._get'),
+               ('chempy/printing/printer.py', 'Printer._print'))
 
     # ------------------------------------------------------------------ generation
     def _key(self, rng, tier):
@@ -259,11 +276,13 @@ class C12(Property):
 
     _decimals = False
 
-    def _ast(self, rng, tier, inact_ok=True):
+    SAFE_KEYS = ['H2O', 'H+', 'OH-', 'NaCl', 'Na+', 'Cl-', 'H2', 'O2', 'CO2', 'H2O2', 'NH4+', 'NH3', 'Fe+3', 'Fe+2', 'SO4-2', 'e-']
+
+    def _ast(self, rng, tier, inact_ok=True, pool=None):
         self._decimals = rng.random() < 0.2          # one reaction in five is written with decimal coefficients
         token = '->' if rng.random() < 0.6 else '='
         npool = rng.randint(1, 7)
-        pool = [self._key(rng, tier) for _ in range(npool)]
+        pool = [self._key(rng, tier) for _ in range(npool)] if pool is None else rng.sample(pool, min(len(pool), npool + 1))
         nmax = 6 if tier == 'quick' else 9
         nr = rng.choice([0, 1, 1, 2, 2, 3, 4, rng.randint(1, nmax)])
         np_ = rng.choice([0, 1, 1, 2, 2, 3, 4, rng.randint(1, nmax)])
@@ -289,7 +308,10 @@ class C12(Property):
         r = rng.random()
         if r < 0.35:
             a['param'] = rng.choice(['', ' ', '  ']) + self._param_text(rng) + rng.choice(['', ' ', '\t'])
-            a['eval'] = rng.random() < 0.6
+            a['eval'] = rng.choice([False, True, True, 'default'])        # globals_=False / {} / None (the default parsing context)
+            if rng.random() < 0.2:
+                a['sym'] = rng.choice(['k', 'k_1', 'kf', 'K w', 'a+b', ''])
+                a['param'] = rng.choice(['', ' ']) + "'" + a['sym'] + "'" + rng.choice(['', ' '])
             if rng.random() < 0.3:
                 a['kw'] = rng.choice(["name='r%d'" % rng.randint(0, 99), "ref='doi:10/x'", "name='a b', ref=3"])
         a['lead'] = rng.choice(['', '', '', ' ', '  ', '\t'])
@@ -394,6 +416,11 @@ class C12(Property):
             o['name'] = rng.choice(['R1', 'my reaction', 'k_2', 'x'])
         o['with_param'] = rng.random() < 0.7
         o['with_name'] = rng.random() < 0.5
+        r = rng.random()
+        if r < 0.08:
+            o['settings'] = rng.sample(['bogus', 'Reaction_arow', 'with_params', 'substance', 'colour'], rng.randint(1, 2))
+        elif r < 0.16:
+            o['no_fallback'] = True
         o.update({'kind': 'print', 'op': 'print'})
         return o
 
@@ -410,6 +437,8 @@ class C12(Property):
         token = '->' if rng.random() < 0.7 else '='
         cts = rng.choice(self.COMMENT_SETS)
         toks = cts if cts is not None else ['#']
+        opt = rng.choice(['checks', 'checks', 'dont_check', 'factory_lambda', 'factory_default'])
+        safe = self.SAFE_KEYS if opt == 'factory_default' else None
         lines, asts = [], []
         foreign = False
         for _ in range(rng.randint(0, 7)):
@@ -424,7 +453,7 @@ class C12(Property):
                 lines.append(rng.choice(['', '', ' ', '\t', '    ']) + ct + rng.choice(['', ' comment', ' A -> B', ct, ' 2 H2O = x; 3', 'x']))
             else:
                 for _ in range(20):
-                    a = self._ast(rng, tier)
+                    a = self._ast(rng, tier, pool=safe)
                     a['token'] = token
                     ok = all(admissible(t['key'], token, t) for t in a['reac'] + a['prod'])
                     e = expected(a)
@@ -440,12 +469,14 @@ class C12(Property):
         text = '\n'.join(lines) + rng.choice(['', '\n', '\n\n'])
         if foreign:
             asts = None
-        if rng.random() < 0.1:
+        if rng.random() < 0.1 and opt != 'factory_default':
             text = self._mutate(rng, text)
             asts = None
+        if opt == 'factory_default' and asts is None:
+            opt = 'checks'
         return {'kind': 'system', 'op': 'system_parse', 'text': text, 'token': token, 'allowed': None, 'asts': asts,
                 'comment_tokens': cts, 'eqsystem': token == '=' and rng.random() < 0.6,
-                'opt': rng.choice(['checks', 'checks', 'dont_check', 'factory_default'])}
+                'opt': opt}
 
     def _copy_case(self, rng, tier):
         """a reaction built from containers of arbitrary kind and order, possibly edited in place, then copied"""
@@ -477,6 +508,71 @@ class C12(Property):
              'pval': rng.choice([None, None, float(self._param_text(rng)), rng.randint(0, 10 ** 6)])}
         c.update(sides)
         return c
+
+    CHECKS = ['any_effect', 'all_positive', 'all_integral', 'consistent_units']
+
+    def _construct_case(self, rng, tier):
+        """the constructor itself: containers of any kind, coefficients that may be zero / negative / fractional, `checks` / `dont_check`"""
+        c = self._copy_case(rng, tier)
+        c['edits'] = []
+        for nm in ('reac', 'prod', 'inact_reac', 'inact_prod'):
+            for it, kind in zip(c[nm], [c['kinds'][('reac', 'prod', 'inact_reac', 'inact_prod').index(nm)]] * len(c[nm])):
+                if kind != 'set' and rng.random() < 0.25:
+                    it[1], it[2] = rng.choice([(0, False), (-1, False), (-2, False), ([3, 2], True), ([1, 2], True), (2, True), (0, True), ([-5, 2], True)])
+        if rng.random() < 0.3 and c['reac']:
+            c['prod'] = [list(x) for x in c['reac']]          # no net effect
+            c['kinds'][1] = c['kinds'][0]
+        r = rng.random()
+        c['checks'] = c['dont_check'] = None
+        if r < 0.3:
+            c['checks'] = rng.sample(self.CHECKS, rng.randint(0, 4))
+        elif r < 0.6:
+            c['dont_check'] = rng.sample(self.CHECKS, rng.randint(0, 4))
+        elif r < 0.7:
+            c['checks'] = rng.sample(self.CHECKS, rng.randint(0, 2))
+            c['dont_check'] = rng.sample(self.CHECKS, rng.randint(0, 2))
+        elif r < 0.75:
+            c['dont_check'] = ['no_such_check']
+            c['prod'] = [['Zq', 1, False]]
+            c['kinds'][1] = 'dict'
+            c['reac'] = [it for it in c['reac'] if it[0] != 'Zq' and (it[2] is False and isinstance(it[1], int) and it[1] > 0)] or [['A', 1, False]]
+            c['inact_reac'], c['inact_prod'] = [], []
+        c.update({'kind': 'construct', 'op': 'construct', 'pval': None, 'data': None})
+        return c
+
+    def _eq_case(self, rng, tier):
+        """two reaction objects compared with ==: equal, or differing in exactly one place"""
+        a = self._copy_case(rng, tier)
+        a['edits'] = []
+        a['kinds'] = ['ordered'] * 4
+        import copy as _c
+        b = _c.deepcopy(a)
+        how = rng.choice(['same', 'same', 'order', 'coef', 'key', 'param', 'name', 'inact', 'side', 'float', 'class'])
+        if how == 'order':
+            side = rng.choice(['reac', 'prod'])
+            b[side] = list(reversed(b[side]))
+        elif how == 'coef' and b['prod']:
+            b['prod'][0][1] += 1
+        elif how == 'key' and b['reac']:
+            b['reac'][0][0] += 'x'
+        elif how == 'param':
+            b['pval'] = (a['pval'] or 0) + 1
+        elif how == 'name':
+            b['name'] = 'other'
+        elif how == 'inact':
+            b['inact_reac'] = b['inact_reac'] + [['Qx', 2, False]]
+        elif how == 'side':
+            b['reac'], b['prod'] = b['prod'], b['reac']
+        elif how == 'float' and b['reac']:
+            b['reac'][0][2] = True
+        elif how == 'class':
+            b['arrow'] = '=' if a['arrow'] == '->' else '->'
+        return {'kind': 'eq', 'op': 'eq', 'a': a, 'b': b, 'how': how}
+
+    def _unit_case(self, rng, tier):
+        o = self._rxn_obj(rng, tier)
+        o.update({'kind': 'unit_param', 'mag': float(self._param_text(rng)), 'unit': rng.choice(['second', 'molar_second', 'hour'])})
+        return o
 
     def _system_rt_case(self, rng, tier):
         token = '->' if rng.random() < 0.7 else '='
@@ -519,9 +615,15 @@ class C12(Property):
                 cases.append(self._written_case(rng, tier))
             elif r < 0.58:
                 cases.append(self._raw_case(rng, tier))
-            elif r < 0.62:
+            elif r < 0.60:
                 cases.append(self._copy_case(rng, tier))
-            elif r < 0.68:
+            elif r < 0.615:
+                cases.append(self._construct_case(rng, tier))
+            elif r < 0.63:
+                cases.append(self._eq_case(rng, tier))
+            elif r < 0.633:
+                cases.append(self._unit_case(rng, tier))
+            elif r < 0.69:
                 cases.append(self._print_case(rng, tier))
             elif r < 0.78:
                 cases.append(self._roundtrip_case(rng, tier))
@@ -549,8 +651,17 @@ class C12(Property):
             return {'op': 'parse', 'line': c['line'], 'token': c['token'], 'allowed': c['allowed'], 'eval': c.get('eval', False)}
         if k == 'print':
             m = self._mobj(c)
-            m.update({'op': 'print', 'arrow': c['arrow'], 'with_param': c['with_param'], 'with_name': c['with_name'], 'pval': c.get('pval')})
+            m.update({'op': 'print', 'arrow': c['arrow'], 'with_param': c['with_param'], 'with_name': c['with_name'], 'pval': c.get('pval'),
+                      'settings': c.get('settings'), 'no_fallback': bool(c.get('no_fallback', False))})
             return m
+        if k == 'construct':
+            m = self._mobj(c)
+            m.update({'op': 'construct', 'arrow': c['arrow'], 'kinds': c['kinds'], 'checks': c['checks'], 'dont_check': c['dont_check']})
+            return m
+        if k == 'eq':
+            ex = lambda o: dict(self._mobj(o), arrow=o['arrow'], kinds=o['kinds'], pval=o.get('pval'),
+                                param=None if o.get('pval') is None else repr(o['pval']))     # exact text: == compares values
+            return {'op': 'eq', 'a': ex(c['a']), 'b': ex(c['b'])}
         if k == 'copy':
             m = self._mobj(c)
             m.update({'op': 'copy', 'arrow': c['arrow'], 'kinds': c['kinds'], 'edits': c['edits'], 'pval': c.get('pval'), 'data': c.get('data')})
@@ -577,6 +688,8 @@ class C12(Property):
         return {'->': Reaction, '=': Equilibrium}[token]
 
     def _parse_real(self, line, token, allowed, ev):
+        if ev == 'default':
+            return self._cls(token).from_string(line, allowed)            # globals_=None: get_parsing_context()
         return self._cls(token).from_string(line, allowed, globals_={} if ev else False)
 
     def _build(self, o, arrow=None, checks=None):
@@ -597,25 +710,30 @@ class C12(Property):
         opt = c.get('opt', 'checks')
         if opt == 'dont_check':
             kw['dont_check'] = {'balance', 'substance_keys', 'duplicate', 'duplicate_names'}
-        elif opt == 'factory_default':
+        elif opt == 'factory_lambda':
             kw['substance_factory'] = lambda k: Substance(k)
             kw['checks'] = ()
             kw['sort_substances'] = False
+        elif opt == 'factory_default':
+            del kw['substance_factory']          # the default: cls._BaseSubstance.from_formula (keys of these cases are formulas)
+            kw['checks'] = ()
         else:
             kw['checks'] = ()
         if c.get('comment_tokens') is not None:
             kw['comment_tokens'] = tuple(c['comment_tokens'])
         return cls.from_string(c['text'], None, rxn_parse_kwargs={'globals_': globals_}, **kw)
 
-    def _build_copy_case(self, c):
+    def _build_copy_case(self, c, ctor_kw=None):
         """the real object of a copy case: containers of the given kinds, constructor without checks, in-place edits"""
         from collections import OrderedDict
         conts = []
         for kind, nm in zip(c['kinds'], ('reac', 'prod', 'inact_reac', 'inact_prod')):
-            items = [(k, float(v) if fl else v) for k, v, fl in c[nm]]
+            items = [(k, (float(Fraction(*v)) if isinstance(v, list) else float(v)) if fl else v) for k, v, fl in c[nm]]
             conts.append({'dict': dict, 'ordered': OrderedDict}[kind](items) if kind != 'set' else {k for k, _ in items})
+        if ctor_kw is None:
+            ctor_kw = {'checks': ()}
         r = self._cls(c['arrow'])(conts[0], conts[1], c.get('pval'), inact_reac=conts[2], inact_prod=conts[3], name=c.get('name'),
-                                  data=c.get('data'), checks=())
+                                  data=c.get('data'), **ctor_kw)
         for side, old, new in c['edits']:
             d = getattr(r, side)
             d[new] = d.pop(old)
@@ -651,7 +769,13 @@ class C12(Property):
                 return show_strs(list(chempy.Reaction._init_stoich({k: 1 for k in c['keys']}).keys()))
             if op == 'print':
                 r = self._build(c, checks=())
-                return '"' + esc(r.string(with_param=c['with_param'], with_name=c['with_name'])) + '"'
+                kw = {k: 1 for k in (c.get('settings') or [])}
+                if c.get('no_fallback'):
+                    kw['fallback_print_fn'] = None
+                try:
+                    return '"' + esc(r.string(with_param=c['with_param'], with_name=c['with_name'], **kw)) + '"'
+                except ValueError as e:
+                    return err_tag(e)
             if op == 'roundtrip':
                 r = self._build(c, checks=())
                 try:
@@ -659,6 +783,25 @@ class C12(Property):
                 except Exception as e:
                     return err_tag(e)
                 return str(r2 == r)
+            if op == 'construct':
+                probe = self._build_copy_case(dict(c, edits=[], pval=None, data=None))         # checks=()
+                preds = '%s %s %s' % (probe.check_any_effect(), probe.check_all_positive(), probe.check_all_integral())
+                kw = {}
+                if c.get('checks') is not None:
+                    kw['checks'] = tuple(c['checks'])
+                if c.get('dont_check') is not None:
+                    kw['dont_check'] = set(c['dont_check'])
+                try:
+                    r = self._build_copy_case(dict(c, edits=[], pval=None, data=None), kw)
+                except ValueError as e:
+                    return err_tag(e) + ' | ' + preds
+                except AttributeError:
+                    return 'AttributeError | ' + preds
+                return 'ok %s %s %s %s | %s' % (show_dict(r.reac), show_dict(r.prod), show_dict(r.inact_reac), show_dict(r.inact_prod), preds)
+            if op == 'eq':
+                a = self._build_copy_case(dict(c['a'], edits=[], data=None))
+                b = self._build_copy_case(dict(c['b'], edits=[], data=None))
+                return str(a == b)
             if op == 'copy':
                 r = self._build_copy_case(c)
                 cp = r.copy()
@@ -717,11 +860,13 @@ class C12(Property):
                     return False
                 vi, vm = fa[4], fb[4]
                 if vi == '-':
-                    if c.get('eval') and vm not in ('-', '"None"'):
+                    if vm.startswith('sym"') or (c.get('eval') and vm not in ('-', '"None"')):
                         return False
                     continue
-                if vi.startswith('=MassAction(') and vm.startswith('"\'') and vm.endswith('\'"'):
-                    continue        # the quoted 'k' parameter form (a Symbol rate constant) is outside the model: the text agrees
+                if vi.startswith('sym"') or vm.startswith('sym"'):
+                    if vi != vm:
+                        return False
+                    continue
                 if vi.startswith('=') and vm.startswith('"'):
                     try:
                         if float(vi[1:]) != float(vm[1:-1]):
@@ -793,9 +938,17 @@ class C12(Property):
             f = self._check_parsed(r, a, 'from_string')
             if f:
                 return f
-            if a.get('param') is not None and c.get('eval'):
+            if a.get('sym') is not None:
+                if type(r.param).__name__ != 'MassAction' or tuple(r.param.args[0].unique_keys) != (a['sym'],):
+                    return "quoted parameter of %r read as %r" % (c['line'], r.param)
+                s2 = r.string(with_param=True)
+                if not s2.endswith("; '" + a['sym'] + "'"):
+                    return 'symbol parameter printed as %r' % s2
+            elif a.get('param') is not None and c.get('eval'):
                 if r.param != float(a['param']):
                     return 'parameter of %r read as %r' % (c['line'], r.param)
+            elif a.get('param') is not None and r.param is not None:
+                return 'parameter %r although globals_=False' % (r.param,)
             if a.get('param') is None and r.param is not None:
                 return 'parameter appeared from nowhere: %r' % (r.param,)
             if a.get('kw') is not None and a['kw'].startswith("name='r"):
@@ -803,6 +956,70 @@ class C12(Property):
                     return 'name of %r read as %r' % (c['line'], r.name)
             if r.copy() != r:
                 return 'copy differs from original for %r' % c['line']
+            return None
+        if k == 'construct':
+            spec = {nm: [(kk, 1 if kd == 'set' else (Fraction(*v) if isinstance(v, list) else Fraction(v))) for kk, v, fl in c[nm]]
+                    for nm, kd in zip(('reac', 'prod', 'inact_reac', 'inact_prod'), c['kinds'])}
+            tot = lambda nm, key: sum(v for kk, v in spec[nm] if kk == key)
+            keys = {kk for l in spec.values() for kk, _ in l}
+            eff = any(tot('prod', q) + tot('inact_prod', q) - tot('reac', q) - tot('inact_reac', q) != 0 for q in keys)
+            pos = all(v >= 0 for l in spec.values() for _, v in l)
+            integ = all(v.denominator == 1 for l in spec.values() for _, v in l)
+            probe = self._build_copy_case(dict(c, edits=[], pval=None, data=None))
+            got = (probe.check_any_effect(), probe.check_all_positive(), probe.check_all_integral())
+            if got != (eff, pos, integ):
+                return 'check_any_effect/all_positive/all_integral = %r, from the coefficients: %r (%r)' % (got, (eff, pos, integ), spec)
+            for nm, kd in zip(('reac', 'prod', 'inact_reac', 'inact_prod'), c['kinds']):
+                want = [kk for kk, _ in spec[nm]] if kd == 'ordered' else sorted(kk for kk, _ in spec[nm])
+                if list(getattr(probe, nm)) != want:
+                    return '%s built from a %s has key order %r, expected %r' % (nm, kd, list(getattr(probe, nm)), want)
+            kw = {}
+            if c.get('checks') is not None:
+                kw['checks'] = tuple(c['checks'])
+            if c.get('dont_check') is not None:
+                kw['dont_check'] = set(c['dont_check'])
+            default = {'any_effect', 'all_positive', 'all_integral', 'consistent_units'}
+            if 'checks' in kw and 'dont_check' in kw:
+                expect = 'ValueError'
+            else:
+                run = set(kw['checks']) if 'checks' in kw else {x for x in default | set(kw.get('dont_check', ())) if (x in default) != (x in kw.get('dont_check', ()))}
+                verdict = {'any_effect': eff, 'all_positive': pos, 'all_integral': integ, 'consistent_units': True}
+                if any(x in verdict and not verdict[x] for x in run):
+                    expect = 'ValueError'
+                elif any(x not in verdict for x in run):
+                    expect = 'AttributeError'
+                else:
+                    expect = None
+            try:
+                self._build_copy_case(dict(c, edits=[], pval=None, data=None), kw)
+                outcome = None
+            except (ValueError, AttributeError) as e:
+                outcome = type(e).__name__
+            if outcome != expect:
+                return 'constructor with %r on %r: %r, expected %r' % (kw, spec, outcome, expect)
+            return None
+        if k == 'eq':
+            a = self._build_copy_case(dict(c['a'], edits=[], data=None))
+            b = self._build_copy_case(dict(c['b'], edits=[], data=None))
+            val = lambda o, nm: [(kk, Fraction(*v) if isinstance(v, list) else Fraction(v)) for kk, v, fl in o[nm]]
+            want = all(val(c['a'], nm) == val(c['b'], nm) for nm in ('reac', 'prod', 'inact_reac', 'inact_prod')) and c['a'].get('pval') == c['b'].get('pval')
+            if (a == b) != want or (b == a) != want or (a != b) == want:
+                return '%r == %r gives %r, attribute-wise comparison %r (%s)' % (str(a), str(b), a == b, want, c['how'])
+            if not (a == a) or a != a or (a == 5) is not False or a.__eq__(5) is not NotImplemented or a == None:  # noqa
+                return 'identity / foreign-type comparison of %r is wrong' % str(a)
+            return None
+        if k == 'unit_param':
+            import chempy.units as cu
+            u = cu.default_units
+            unit = {'second': 1 / u.second, 'molar_second': 1 / u.molar / u.second, 'hour': 1 / u.hour}[c['unit']]
+            q = c['mag'] * unit
+            r = self._build(dict(c, pval=None), checks=())
+            r.param = q
+            plain = r.string()
+            got = r.string(with_param=True)
+            want = plain + '; ' + ('%.3g' % c['mag']) + ' ' + str(q.dimensionality)
+            if got != want:
+                return 'reaction with a unit-carrying parameter prints %r, expected %r' % (got, want)
             return None
         if k == 'copy':
             import copy as _copy
@@ -925,6 +1142,11 @@ class C12(Property):
             return 'written:terms%s%s' % ('0-2' if nt <= 2 else '3-6' if nt <= 6 else '7+', ''.join(':' + t for t in tags))
         if k == 'prim':
             return 'prim:' + c['op']
+        if k == 'construct':
+            return 'construct:' + ('both' if c['checks'] is not None and c['dont_check'] is not None else 'checks' if c['checks'] is not None
+                                   else 'dont_check' if c['dont_check'] is not None else 'default')
+        if k == 'eq':
+            return 'eq:' + c['how']
         if k == 'copy':
             return 'copy:' + ('unsorted-ordered' if any(kd == 'ordered' and [x[0] for x in c[nm]] != sorted(x[0] for x in c[nm])
                                                         for kd, nm in zip(c['kinds'], ('reac', 'prod', 'inact_reac', 'inact_prod')))
